@@ -24,7 +24,9 @@ NAMES = ['id', 'idx', 'name', 'nam', 'a.b', 'axb', 'a+b', 'v(1)', 'c1', 'c2', 'c
 VALS = [None, 0, 1, 2, 5, -3, 'x', 'yy', 'a b', 'é']
 PATS = ['id', 'idx?', 'nam', 'name', r'a.b', r'a\.b', r'c\d', r'c\d+', r'c(\d+)', r'(id|name)', r'.*', r'[a-c].*', 'total', 'zz', r'v\(1\)', r'n\*', r'a\+b',
         # alternations at the top level of the pattern: the whole name must match one alternative
-        'id|name', 'nam|total', r'c\d|id']
+        'id|name', 'nam|total', r'c\d|id',
+        # groups whose alternatives are prefixes of each other, and a group that can also match the empty string
+        r'(id|idx)', r'(nam|name)', r'(.*)', r'(c1|c10)']
 
 
 def gen_table(rng, typed=False):
@@ -58,6 +60,10 @@ def gen_cases(rng, tier):
                 c['fields'] = [rng.pick(PATS) for _ in range(rng.randint(1, 3))]
             else:
                 c['fields'] = [rng.pick(names + ['zz']) for _ in range(rng.randint(1, 3))]
+            if k == 'delete' and not c['two'] and len(names) >= 3 and rng.chance(0.5):
+                cand = [n for n in names if not any((re.fullmatch(p, n) if regex else p == n) for p in c['fields'])]
+                if cand and any((re.fullmatch(p, n) if regex else p == n) for p in c['fields'] for n in names if n != cand[-1]):
+                    c['narrow2'] = cand[-1]
         elif k == 'rename':
             m = []
             for _ in range(rng.randint(1, 3)):
@@ -178,7 +184,14 @@ def run_impl(case):
         keep = [n for n in case['names'] if n != drop]
         res.append(mk_resource('narrow', keep, [dict((k_, v_) for k_, v_ in r.items() if k_ != drop) for r in rows],
                                types=dict((n, case['types'][n]) for n in keep)))
-    out = run_stream(res, [step_of(case)])
+    if case.get('narrow2'):
+        # a second selected resource with fewer fields: each resource keeps, loses and renames its own fields
+        drop = case['narrow2']
+        keep = [n for n in case['names'] if n != drop]
+        res.append(mk_resource('narrow2', keep, [dict((k_, v_) for k_, v_ in r.items() if k_ != drop) for r in rows],
+                               types=dict((n, case['types'][n]) for n in keep)))
+    # (also read with all resources taken before any row is read)
+    out = run_stream(res, [step_of(case)], collect=True)
     if 'error' in out:
         return {'error': out['error'], 'exc': out['exc']}
     r = {'rows': rows_enc(out['rows'][0]), 'fields': field_names(out['dp'], 0),
